@@ -143,7 +143,7 @@ def rule_components(ctx, tabs):
             for b in bodies:
                 n += 1
                 inst = "%s:%s" % (famname, name)
-                sites = TB.return_sites(b, P)
+                sites = TB.return_sites(b, P, resolve=True)
                 # functions that only forward (distance_horder -> distance_header)
                 if not sites:
                     fw = [t for _, t in b.calls() if t["dest"]["l"] == 0]
@@ -216,7 +216,7 @@ def rule_R6_enum_wildcards(ctx, tabs):
         except AnchorMissing as e:
             ctx.cannot("R6", "%s::%s" % (ty, name), str(e))
             continue
-        sites = TB.return_sites(b, P)
+        sites = TB.return_sites(b, P, resolve=True)
         found = False
         for s in sites:
             sc = _score_of(s[2], tabs)
@@ -351,7 +351,7 @@ def rule_R5(ctx):
                           "component %s is not applied to (observed, signature) of the same field" % nm, ctx.loc(b, blk))
             # `?` propagation: one FromResidual::from_residual (or explicit None) exit per component
             res = [t for _, t in Q.calls(b, "from_residual") if t["dest"]["l"] == 0]
-            none_rets = [s for s in TB.return_sites(b, P) if _score_of(s[2], {})[0] == "None"]
+            none_rets = [s for s in TB.return_sites(b, P, resolve=True) if _score_of(s[2], {})[0] == "None"]
             nprop = len(res) + len(none_rets)
             ctx.check(nprop >= len(want), "R5", inst + ":propagates-none", "%d None-propagating exits for %d components" % (nprop, len(want)),
                       "only %d of %d components propagate their None (`?`)" % (nprop, len(want)), ctx.loc(b))
@@ -578,12 +578,14 @@ def rule_R12(ctx):
         b = cands[0]
         S = T.Slicer(b, P)
         got_sets = []
-        for (rb, j, term, _c) in TB.return_sites(b, P):
+        for (rb, j, term, pconds, split) in TB.return_alternatives(b, P):
             tt = T.strip(term)
             sc = [x[3] for x in T.walk(tt) if x[0] == "agg" and x[3] in ("High", "Medium", "Low", "Bad")]
             if sc and sc[0] == "High":
                 continue
-            conds = Q.canon_conds(P, T.dom_conds(b, S, rb))
+            # a value assembled after the branches (`let q = if .. {High} else {Low}; Some(q.as_score())`, `c.then(..)`) is judged
+            # under the conditions of the path that produced it
+            conds = (Q.canon_conds(P, T.dom_conds(b, S, rb)) + list(pconds)) if split else Q.canon_conds(P, T.dom_conds(b, S, rb))
             got = set()
             for c in conds:
                 if c[0] == "cmp" and c[1] in ("Eq", "Ne"):
